@@ -5,7 +5,7 @@
 
 use crate::{error::panic_divide_by_0, rbig::RBig, repr::Repr};
 use core::{cmp::Ordering, mem};
-use dashu_base::{AbsOrd, Approximation, DivRem, UnsignedAbs};
+use dashu_base::{AbsOrd, Approximation, DivRem, FloatEncoding, UnsignedAbs};
 use dashu_int::{IBig, Sign, UBig};
 
 impl Repr {
@@ -73,28 +73,42 @@ impl Repr {
 
 /// Implementation of simplest_from_f32, simplest_from_f64
 macro_rules! impl_simplest_from_float {
-    ($f:ident) => {{
+    ($f:ident, $t:ty) => {{
         if $f.is_infinite() || $f.is_nan() {
             return None;
         } else if $f == 0. {
             return Some(Self::ZERO);
         }
 
-        // get the range (f - ulp/2, f + ulp/2)
+        // get the range (f - ulp/2, f + ulp/2), where ulp = 2^exp for f = man * 2^exp
         // if f is negative, then range will be flipped by simplest_in()
+        let (_, exp) = $f.decode().unwrap();
         let mut est = Repr::try_from($f).unwrap();
-        est.numerator <<= 1;
-        est.denominator <<= 1;
+        est.numerator <<= 2;
+        est.denominator <<= 2;
+        let quarter_ulp = IBig::ONE << exp.max(0) as usize; // in units of 1 / est.denominator
+        let half_ulp = &quarter_ulp << 1;
+
+        // The floats right below a power of two (in magnitude) are spaced half as wide, so on that
+        // side the range ends at ulp/4. Below the smallest normal number the spacing stays the same.
+        let pow2 = $f.to_bits() & ((1 << (<$t>::MANTISSA_DIGITS - 1)) - 1) == 0
+            && $f != <$t>::MIN_POSITIVE
+            && $f != -<$t>::MIN_POSITIVE;
+        let (up, down) = match (pow2, $f > 0.) {
+            (false, _) => (half_ulp.clone(), half_ulp),
+            (true, true) => (half_ulp, quarter_ulp),
+            (true, false) => (quarter_ulp, half_ulp),
+        };
         let left = Self(
             Repr {
-                numerator: &est.numerator + IBig::ONE,
+                numerator: &est.numerator + up,
                 denominator: est.denominator.clone(),
             }
             .reduce(),
         );
         let right = Self(
             Repr {
-                numerator: est.numerator - IBig::ONE,
+                numerator: est.numerator - down,
                 denominator: est.denominator,
             }
             .reduce(),
@@ -158,7 +172,7 @@ impl RBig {
     /// );
     /// ```
     pub fn simplest_from_f32(f: f32) -> Option<Self> {
-        impl_simplest_from_float!(f)
+        impl_simplest_from_float!(f, f32)
     }
 
     /// Find the simplest rational number in the rounding interval of the [f64] number.
@@ -189,7 +203,7 @@ impl RBig {
     ///     RBig::from_parts(22.into(), 7u8.into())
     /// );
     pub fn simplest_from_f64(f: f64) -> Option<Self> {
-        impl_simplest_from_float!(f)
+        impl_simplest_from_float!(f, f64)
     }
 
     /// Find the simplest rational number in the open interval `(lower, upper)`.
